@@ -92,6 +92,18 @@ func GenBinKeys(t *rapid.T) []string {
 // CopyPiece added to a create split size marks a piece that is written with io.Copy.
 const CopyPiece = 1 << 24
 
+// SrcKinds are the concrete source types of World.source.
+var SrcKinds = []string{"bytes", "bytes-consumed", "bytes-consumed", "strings-consumed", "section", "section-consumed", "buffer", "bufio", "limited", "multi", "pipe"}
+
+// GenSrc draws the source type for a write through SetReader: half of them the harness's own reader with
+// its splitting habits, half a standard-library reader (fresh or partly consumed).
+func GenSrc(t *rapid.T, via string) string {
+	if via != "reader" || rapid.Bool().Draw(t, "ownReader") {
+		return ""
+	}
+	return rapid.SampledFrom(SrcKinds).Draw(t, "src")
+}
+
 // GenCancelClose: now and then the context a file was created with is cancelled before the file is closed.
 func GenCancelClose(t *rapid.T, via string) bool {
 	return via == "create" && rapid.IntRange(0, 4).Draw(t, "cancelBeforeClose") == 0
